@@ -20,7 +20,7 @@ def mC : Bytes := [2, 0, 0, 0, 0, 3]
 def name10 : Bytes := [48, 45, 48, 45, 48, 45, 49, 48]
 def alpha : Bytes := [97, 108, 112, 104, 97]
 
-theorem c0_ok : ConfOK c0 := ⟨by decide, by decide, by decide⟩
+theorem c0_valid : validate c0 = true := by decide
 
 /-- R3: a reservation named `0-0-0-10`; a client is offered 0.0.0.10 and requests it without a hostname. -/
 def opsR3 : List Op := [.addStatic mA 20 name10, .discover mB, .request mB 2 true 10 0 []]
